@@ -81,7 +81,7 @@ PROPS = {
                        '(nothing but ProphycError leaves main) is decided by the bounded stand-in only',
     },
     'C16': {
-        'modules': ['contracts.c16_files', 'contracts.c16_pyinclude'],
+        'modules': ['contracts.c16_files', 'contracts.c16_pyinclude', 'contracts.c16_include'],
         'standins': ['multifile'],
         'trusted': PYVC_TRUST + ['os.path.* / codecs.open (opaque contracts)'],
         'assumptions': ['end-to-end equivalence with the concatenated file over directory arrangements: bounded stand-in',
